@@ -9,7 +9,10 @@ def decode(string):
 validate_encoded = decode
 
 def validate_decoded(alignment):
-  alignment.validate()
+  if isinstance(alignment, gfapy.CIGAR):
+    alignment.validate(version = "gfa2")
+  else:
+    alignment.validate()
 
 def unsafe_encode(obj):
   return str(obj)
@@ -19,7 +22,7 @@ def encode(obj):
     validate_encoded(obj)
     return obj
   elif isinstance(obj, gfapy.CIGAR) or isinstance(obj, gfapy.Trace):
-    obj.validate()
+    validate_decoded(obj)
     return str(obj)
   elif isinstance(obj, gfapy.Placeholder):
     return "*"
